@@ -51,6 +51,10 @@ CLAIMS = {
  "C19": ("Lean theorems: page bounds (≤30, default 10, ≤ limit), the exclusive bound means strictly-after under NoLowExt, the page walk visits every registered pair exactly once and ends (no fuel bound in the statement), "
          "NoLowExt for identifiers with bytes ≥ 2, necessity of the hypothesis, sortedness preserved by insertion. Correspondence: read_pairs over real storage, world family factory.",
          "§6 C19", "Lean 4 proof (list algorithm, termination, completeness) + differential correspondence"),
+ "C03": ("Lean theorems: the share-value order NonDecr is reflexive and transitive (so it lifts to histories), and is preserved by provisions (share formula), withdrawals (refund formula), out-of-window swaps (pricing function, commission kept), "
+         "donations and holder burns; the unrestricted statement is refuted by a proved witness (same root cause as C01, known finding KF-SWAP-WINDOW), so the history theorem is `partial`: every ingredient but in-window swaps. "
+         "Correspondence + oracle: after every step of every world family (accepted or rejected) reserve0*reserve1/S^2 of every pair is compared by exact cross-multiplication on the implementation's own ledger.",
+         "§6 C03, §7 D1", "Lean 4 proof (order preserved by every pricing function; composition) + differential correspondence on cw-multi-test"),
  "C15": ("Lean theorems: soundness and completeness of assert_slippage_tolerance, >100% always rejected, no abort on positive 128-bit inputs. "
          "Correspondence: slippage family with deposits solved around both ratio limits.", "§6 C15", "Lean 4 proof + differential correspondence"),
 }
@@ -60,7 +64,7 @@ PENDING = {}
 
 NOT_YET = {
  "C02_": "world-level model (N5) and swap settlement theorems not built yet; planned, see DESIGN §6 C02",
- "C03": "history induction over the world model not built yet; planned, see DESIGN §6 C03",
+ "C03_": "history induction over the world model not built yet; planned, see DESIGN §6 C03",
  "C07": "frame/conservation theorems over the world model not built yet; planned",
  "C11_": "router model not built yet; planned",
  "C13": "router model not built yet; planned",
